@@ -468,7 +468,10 @@ pub fn run_cnf_large(case: &BigCnfCase, st: &mut Stats) -> CaseResult {
     st.flag("large.label_at_or_above_128", clauses.iter().flatten().any(|(v, _)| *v >= 128));
     st.flag("large.two_labels_congruent_mod_64_in_one_clause", clauses.iter().any(|c| c.iter().any(|(v, _)| c.iter().any(|(w, _)| v != w && v % 64 == w % 64))));
     st.bump(&format!("large.vtree_kind.{}", case.vtree_kind % 4));
-    if n >= 33 && clauses.len() >= 2 && models_seen >= 1 {
+    let dense = clauses.len() >= 20;
+    st.flag("large.dense_family", dense);
+    st.flag("large.dense_family_with_probed_model", dense && models_seen >= 1);
+    if (n >= 33 || dense) && clauses.len() >= 2 && models_seen >= 1 {
         st.mark_nontrivial();
     }
     Ok(())
@@ -477,15 +480,17 @@ pub fn run_cnf_large(case: &BigCnfCase, st: &mut Stats) -> CaseResult {
 impl SubCheckT for CnfLarge {
     type Case = BigCnfCase;
     const NAME: &'static str = "cnf_many_variables";
-    const RULE: &'static str = "CNFs of 1..10 clauses (1..4 literals) whose labels are a small base plus an offset from {0, 32, 64, 128, 190} (so that 32-, 64- and 128-boundaries are crossed and labels congruent modulo 64 meet in one clause), compiled by the BDD builder under a linear or pseudo-random order over all num_vars variables and by the SDD builder over a vtree made by the library's own right_linear / left_linear / even_split: each diagram is evaluated by the harness's own walk on 48 pseudo-random assignments and on 3 assignments per clause that falsify exactly that clause, against direct evaluation of the clause list; compile_cnf_with_assignments = compile then condition_model (same node) and the right function. Non-trivial: >= 33 variables, >= 2 clauses and at least one probed model";
+    const RULE: &'static str = "CNFs of 1..10 clauses (1..4 literals) whose labels are a small base plus an offset from {0, 32, 64, 128, 190} (so that 32-, 64- and 128-boundaries are crossed and labels congruent modulo 64 meet in one clause), or (one case in six) 20..60 clauses of 3..12 literals over 12..28 variables, compiled by the BDD builder under a linear or pseudo-random order over all num_vars variables and by the SDD builder over a vtree made by the library's own right_linear / left_linear / even_split: each diagram is evaluated by the harness's own walk on 48 pseudo-random assignments and on 3 assignments per clause that falsify exactly that clause, against direct evaluation of the clause list; compile_cnf_with_assignments = compile then condition_model (same node) and the right function. Non-trivial: >= 33 variables (or the dense family), >= 2 clauses and at least one probed model";
     fn cases(tier: Tier) -> u32 {
         tier.pick(1200, 30_000)
     }
     fn strategy(_tier: Tier) -> BoxedStrategy<BigCnfCase> {
         let lit = (0u8..10, prop_oneof![3 => Just(0u8), 1 => Just(32u8), 3 => Just(64u8), 2 => Just(128u8), 1 => Just(190u8)], any::<bool>())
             .prop_map(|(b, off, p)| (b + off, p));
+        // a second family: many and wide clauses (20..60 clauses of 3..12 literals) over 12..28 contiguous labels
+        let dense = (12u8..=28).prop_flat_map(|nv| proptest::collection::vec(proptest::collection::vec((0..nv, any::<bool>()), 3..=12), 20..=60));
         (
-            proptest::collection::vec(proptest::collection::vec(lit, 1..=4), 1..=10),
+            prop_oneof![5 => proptest::collection::vec(proptest::collection::vec(lit, 1..=4), 1..=10), 1 => dense],
             any::<u64>(),
             0u8..4,
             proptest::collection::vec((any::<u8>(), any::<bool>()), 0..=4),
